@@ -34,22 +34,23 @@ use super::{
     SizedBundle,
 };
 
-/// Builds the `id`-th item whose encoded length (after the factory's ibc-prefixing) is exactly
-/// `target` bytes. The first 8 payload bytes carry the id.
+/// Builds the `id`-th item whose encoded length, once the factory has ibc-prefixed its fee asset, is exactly `target`
+/// bytes.  The item itself is handed over as a client sends it: with the fee asset spelled `nria` (the normalisation
+/// is the factory's business).  The first 8 payload bytes carry the id.
 fn item(id: u64, target: usize) -> RollupDataSubmission {
     let mk = |len: usize| {
         let mut data = vec![0xabu8; len.max(8)];
         data[..8].copy_from_slice(&id.to_le_bytes());
-        super::with_ibc_prefixed(RollupDataSubmission {
+        RollupDataSubmission {
             rollup_id: RollupId::new([(id % 3) as u8; 32]),
             data: data.into(),
             fee_asset: "nria".parse().unwrap(),
-        })
+        }
     };
     let mut len = target.saturating_sub(120).max(8);
     for _ in 0..400 {
         let it = mk(len);
-        let got = encoded_len(&it);
+        let got = encoded_len(&super::with_ibc_prefixed(it.clone()));
         if got == target {
             return it;
         }
